@@ -28,6 +28,7 @@ struct HbProdRun : NodeEnv {
         NodeCfg cfg; cfg.nodeId = nodeId; cfg.freq = freq; cfg.tmrNum = 32;
         w.build(0, cfg, specs); w.init(0);
         arm((uint32_t)plan.c("hb", 10));
+        if (plan.c("resetininit", 0)) { w.cur = 0; CONmtReset(&N()->Nmt, plan.c("resetininit", 0) == 1 ? CO_RESET_COM : CO_RESET_NODE); cov.hit("api-reset-in-init-state"); }   // a legal API use: reset between CONodeInit and CONodeStart (no boot-up then); the producer runs as configured afterwards
         w.start(0); m = M_PREOP;         // initialised and started on the same tick
         if (CONodeGetErr(N()) != CO_ERR_NONE) fail("setup/node-error", "node reports an error after initialisation");
     }
@@ -90,7 +91,7 @@ struct HbProdRun : NodeEnv {
 Plan gen_hbprod(Rng &r, bool thorough) {
     Plan p; uint32_t f = r.pick<uint32_t>({1000, 1000, 10000, 100, 2000, 500}); p.cfg["freq"] = f; int64_t unit = f >= 1000 ? 1 : 1000 / f;   // smallest ms value that is >= 1 tick
     auto ms = [&](std::initializer_list<int64_t> l) { return r.pick<int64_t>(l) * unit; };
-    p.cfg["nodeid"] = r.pick<int64_t>({1, 5, 64, 100}); p.cfg["hb"] = r.chance(1, 6) ? 0 : ms({1, 2, 3, 5, 10, 20, 50}); p.cfg["syncprod"] = r.below(2); p.cfg["synccycle"] = ms({1, 2, 5, 10}) * 1000;
+    p.cfg["resetininit"] = r.chance(1, 5) ? r.range(1, 2) : 0; p.cfg["nodeid"] = r.pick<int64_t>({1, 5, 64, 100}); p.cfg["hb"] = r.chance(1, 6) ? 0 : ms({1, 2, 3, 5, 10, 20, 50}); p.cfg["syncprod"] = r.below(2); p.cfg["synccycle"] = ms({1, 2, 5, 10}) * 1000;
     p.cfg["cons0"] = ms({3, 5, 10, 30}); p.cfg["cons1"] = r.chance(1, 2) ? 0 : ms({4, 10}); p.cfg["ev0"] = r.chance(1, 4) ? 0 : ms({1, 2, 5, 10, 20}); p.cfg["inh0"] = r.chance(1, 2) ? 0 : ms({1, 3, 10}) * 10; p.cfg["ev1"] = r.chance(1, 2) ? 0 : ms({2, 10}); p.cfg["inh1"] = r.chance(1, 2) ? 0 : ms({2, 5}) * 10;
     int n = (int)r.range(3, thorough ? 50 : 25);
     for (int i = 0; i < n; i++) {
